@@ -137,8 +137,25 @@ func checkC35(t *testing.T) kernel.CheckFn {
 
 func runC35(env *kernel.Env) {
 	T := env.T
-	w := NewWorld(env, Opts{})
+	// yield sites inside the spool pipeline (swarm: a random subset per run).
+	// Runs that hold server goroutines at yield sites switch the disconnect
+	// watcher off: with queries kept in flight for long the watcher's own
+	// goroutines (promotion, outstanding-read, teardown with racing select
+	// cases) made 1 run in ~2000 unrepeatable, which replay-exactness cannot
+	// afford; runs without armed sites keep the watcher on.
+	var armed []string
+	for _, site := range []string{"spool.final", "spool.callback", "spool.batch"} {
+		if T.Bool(1, 3) {
+			armed = append(armed, site)
+		}
+	}
+	w := NewWorld(env, Opts{DisableWatcher: len(armed) > 0 || env.Opts["nowatch"] == "1"})
 	defer w.Close()
+	for _, site := range armed {
+		w.Sched.Arm(site)
+	}
+	env.Flag("yield-sites-armed", len(armed) > 0)
+	env.Flag("disconnect-watcher-on", len(armed) == 0)
 	ip := w.newInproc()
 	nrows := []int{3, 130, 260, 515, 700}[T.Pick(2, 3, 3, 3, 2)]
 	if env.Tier == "thorough" && T.Bool(1, 4) {
@@ -185,6 +202,7 @@ func runC35(env *kernel.Env) {
 	if backpressure {
 		w.Net.ServerToClientCap = []int{512, 4096, 100}[T.Draw(3)]
 	}
+	env.Logf("armed yield sites: %v", w.Sched.ArmedSites())
 	type cl struct {
 		*Client
 		left      int
@@ -391,6 +409,7 @@ func runC35(env *kernel.Env) {
 			h    *simnet.Half
 			n    int
 			w    int
+			t    *kernel.Task
 		}
 		var evs []ev
 		for _, p := range w.Net.PendingHalves() {
@@ -412,6 +431,10 @@ func runC35(env *kernel.Env) {
 				evs = append(evs, ev{kind: "start", c: c, w: 4})
 			}
 		}
+		parked := w.Sched.ParkedTasks()
+		for _, pt := range parked {
+			evs = append(evs, ev{kind: "resume", t: pt, w: 4})
+		}
 		if busyCount() > 0 {
 			evs = append(evs, ev{kind: "advance", w: 1})
 		}
@@ -426,6 +449,7 @@ func runC35(env *kernel.Env) {
 		switch e.kind {
 		case "deliver":
 			env.Kind("deliver")
+			env.Logf("    deliver %s %d bytes", e.h.Name, e.n)
 			w.Net.Deliver(e.h, 0)
 		case "fragment":
 			k := 1 + T.Draw(e.n-1)
@@ -434,10 +458,24 @@ func runC35(env *kernel.Env) {
 			}
 			env.Kind("fragment")
 			env.Fault("fragment")
+			env.Logf("    deliver %s %d of %d bytes", e.h.Name, k, e.n)
 			w.Net.Deliver(e.h, k)
+		case "resume":
+			site, _ := e.t.Parked()
+			env.Kind("resume:" + site)
+			env.Probe("yield:" + site)
+			env.Logf("    resume %s", e.t.Name)
+			e.t.Resume()
 		case "advance":
 			env.Kind("advance")
-			if w.Net.InFlight() {
+			env.Logf("    advance (t=%v)", w.Now())
+			if len(parked) > 0 {
+				// a server goroutine is held at a yield site while time passes: a slow thread
+				d := []time.Duration{time.Millisecond, 20 * time.Millisecond, 200 * time.Millisecond}[T.Draw(3)]
+				env.Fault("slow-server-goroutine")
+				w.Sched.Advance(d)
+				lastFault = w.Now()
+			} else if w.Net.InFlight() {
 				// the network withholds bytes while time passes: a stall fault
 				d := []time.Duration{time.Millisecond, 20 * time.Millisecond, 200 * time.Millisecond, 3 * time.Second}[T.Pick(4, 4, 2, 1)]
 				env.Fault("stall")
@@ -503,6 +541,7 @@ func runC35(env *kernel.Env) {
 		}
 	}
 	// closing phase: clients close; the server must forget every connection
+	w.ReleaseParked()
 	if !env.Failed() {
 		for _, c := range clients {
 			if c.Conn != nil && !c.Busy {
